@@ -26,10 +26,14 @@ MUT = [
     ("M7 cross-entropy bwd without -1", ("edit", CPU, "    dlogits[range(n), y_true] -= 1\n", "    dlogits[range(n), y_true] -= 0\n")),
     ("M8 nll bwd sign", ("edit", CPU, "loss_grad[range(len(y_pred)), y_true] = -1.0", "loss_grad[range(len(y_pred)), y_true] = 1.0")),
     ("M9 log_softmax bwd sum over last axis", ("edit", CPU, "a_grad = grad - softmax * grad.sum(axis=axis, keepdims=True)", "a_grad = grad - softmax * grad.sum(axis=-1, keepdims=True)")),
-    ("M10 bn wrapper x._grad = x_grad", ("edit", NNF, "            x._grad += x_grad", "            x._grad = x_grad")),
+    ("M10 bn wrapper x._grad = x_grad", ("edit", NNF, "            x._grad += x_grad\n        if weight is not None and weight.requires_grad:", "            x._grad = x_grad\n        if weight is not None and weight.requires_grad:")),
     ("M11 bn eval bwd drops eps", ("edit", CPU, "        dL_dxi = dL_dxi_hat / np.sqrt(variance + eps)\n", "        dL_dxi = dL_dxi_hat / np.sqrt(variance)\n")),
     ("M12 softmax wrapper hands x.data to bwd", ("edit", NNF, "a_grad = cpu_ops.softmax_backward(grad_output.data, out.data, dim)", "a_grad = cpu_ops.softmax_backward(grad_output.data, x.data, dim)")),
     ("M13 bn bwd dvar factor -0.5 -> 0.5", ("edit", CPU, "dL_dvar = (-0.5 * dL_dxi_hat", "dL_dvar = (0.5 * dL_dxi_hat")),
+    ("M15 softmax fwd max over last axis", ("edit", CPU, "shiftx = a - a.max(axis=axis, keepdims=True) ", "shiftx = a - a.max(axis=-1, keepdims=True)")),
+    ("M16 log_softmax fwd sum over last axis", ("edit", CPU, "lse = max_val + np.log(exp.sum(axis=axis, keepdims=True))", "lse = max_val + np.log(exp.sum(axis=-1, keepdims=True))")),
+    ("M17 bn running var without n/(n-1)", ("edit", CPU, "unbiased_var = var * (n / (n - 1))", "unbiased_var = var * 1.0")),
+    ("M18 bn bwd dL_dbeta from dL_dxi_hat", ("edit", CPU, "        dL_dbeta = grad.sum(normed_dims)", "        dL_dbeta = dL_dxi_hat.sum(normed_dims)")),
     ("H1 rename locals in softmax_forward", ("edits", CPU, [("shiftx", "shifted_values"), ("exps", "ee")])),
     ("H2 reorder gamma/beta blocks in bn bwd", ("edit", CPU,
         "    dL_dxi_hat = grad\n    dL_dgamma = None\n    if gamma is not None:\n        dL_dxi_hat = grad * gamma.reshape(keepdims_shape)\n        dL_dgamma = (grad * x_norm).sum(normed_dims)\n        \n    dL_dbeta = None\n    if beta is not None:\n        dL_dbeta = grad.sum(normed_dims)\n",
